@@ -28,7 +28,7 @@ fn spec(t: Tier) -> Spec {
     Spec {
         id: "C05",
         level: "model_checking",
-        rule: format!("default mode: every string of <= {a} symbols over {{space,tab,newline,',\",\\,a,b,é,à}} is read by the real WhitespaceDelimitedArgumentReader (hook H1) in one read() and compared with the reference tokenizer (bytes and line-end flags); every string of <= {b} symbols is read under EVERY composition of its bytes into read() results (incl. 1-byte reads, cuts inside é, inside quotes, after a backslash) and must give the single-read answer; buffer edge: 'a'*k ++ s for every 4090 <= k+|s| <= 4100 and every s of <= {c} symbols with 0, 1 and 2 extra cuts at every position within +-4 of 4096; EINTR injected before each read (must be retried), EIO (must propagate). -0 / -d x / -d '\\n': strings <= {d} over {{a,b,NUL,x,newline,',\",\\,space,0xFF,é}} in one read, <= {e} under every chunking, and 'a'*k ++ s around the BufReader's 8192 edge. state = (bytes consumed, reader's pending/escape state) explored through every environment schedule; transitions = read() answers. Scale slice: three streams of 12000 arguments (50000 in thorough), 150-250 KB (0.6-1 MB) in all (arguments of cycling lengths incl. 5000, 9000 and 20000 bytes, a 6000-byte quoted argument with blanks, tabs and single quotes, backslash-newline, é/à, a run of 4097 blanks / 8193 delimiters) in one read(), in equal chunks of 1, 7, 4095..4097, 8191..8193 bytes and with each of the first 24 refills shifted by one byte. Special inputs through the binary: a /proc file (st_size 0), a FIFO written in two pieces, /proc/self/cmdline (NUL-separated), each via -a FILE and via standard input. Binary slice: strings <= 3 piped into the xargs binary byte-by-byte and in one write."),
+        rule: format!("default mode: every string of <= {a} symbols over {{space,tab,newline,',\",\\,a,b,é,à}} is read by the real WhitespaceDelimitedArgumentReader (hook H1) in one read() and compared with the reference tokenizer (bytes and line-end flags); every string of <= {b} symbols is read under EVERY composition of its bytes into read() results (incl. 1-byte reads, cuts inside é, inside quotes, after a backslash) and must give the single-read answer; buffer edge: 'a'*k ++ s for every 4090 <= k+|s| <= 4100 and every s of <= {c} symbols with 0, 1 and 2 extra cuts at every position within +-4 of 4096; EINTR injected before each read (must be retried), EIO (must propagate). -0 / -d x / -d '\\n': strings <= {d} over {{a,b,NUL,x,newline,',\",\\,space,0xFF,é}} in one read, <= {e} under every chunking, and 'a'*k ++ s around the BufReader's 8192 edge. state = (bytes consumed, reader's pending/escape state) explored through every environment schedule; transitions = read() answers. Scale slice: three streams of 12000 arguments (50000 in thorough), 150-250 KB (0.6-1 MB) in all (arguments of cycling lengths incl. 5000, 9000 and 20000 bytes, a 6000-byte quoted argument with blanks, tabs and single quotes, backslash-newline, é/à, a run of 4097 blanks / 8193 delimiters) in one read(), in equal chunks of 1, 7, 4095..4097, 8191..8193 bytes and with each of the first 24 refills shifted by one byte. Every -d operand is given as -d OP, -dOP, --delimiter OP and --delimiter=OP (NUL also as -0 and --null). Special inputs through the binary: a /proc file (st_size 0), a FIFO written in two pieces, /proc/self/cmdline (NUL-separated), each via -a FILE and via standard input. Binary slice: strings <= 3 piped into the xargs binary byte-by-byte and in one write."),
         bound: json!({"single_read_len": a, "all_chunkings_len": b, "edge_suffix_len": c, "byte_mode_len": d, "byte_mode_chunk_len": e}),
         assumptions: vec![
             "set aside (run for determinism only): strings ending in a lone unquoted backslash, a newline inside quotes, CR/VT/FF".into(),
@@ -705,11 +705,20 @@ fn delimiter_option_slice(ctx: &mut Ctx) {
     for (operand, delim) in cases {
         // (a NUL can only be in the input when it is the delimiter: it cannot be part of an argument)
         let input: Vec<u8> = format!("one\u{e9}tw\u{e0}o,thr\u{e9}e\tfo ur\nfi'v\"e{}si\\x ab seven", if delim == b"\0" { "\0" } else { ";" }).into_bytes();
+        // every way of writing the option: -d OP, -dOP, --delimiter OP, --delimiter=OP (for NUL also -0, --null)
+        let mut forms: Vec<Vec<String>> = vec![vec!["-d".into(), operand.to_string()], vec![format!("-d{operand}")], vec!["--delimiter".into(), operand.to_string()], vec![format!("--delimiter={operand}")]];
+        if operand == "\\00" {
+            forms.push(vec!["-0".into()]);
+            forms.push(vec!["--null".into()]);
+        }
+        for form in forms {
         let _ = std::fs::remove_file(&log);
-        let args: Vec<&std::ffi::OsStr> = vec![std::ffi::OsStr::new("-d"), std::ffi::OsStr::new(operand), vrec.as_os_str(), log.as_os_str()];
+        let mut args: Vec<&std::ffi::OsStr> = form.iter().map(std::ffi::OsStr::new).collect();
+        args.extend([vrec.as_os_str(), log.as_os_str()]);
         let (code, _o, err) = crate::xargsrun::run_xargs_bin(&args, &ctx.sbx, &[], &mut |si| {
             let _ = si.write_all(&input);
         });
+        let operand = &form.join(" ");
         ctx.rep.evaluations += 1;
         ctx.rep.nontrivial += 1;
         let got: Vec<Vec<u8>> = crate::vreclog::read(&log).unwrap_or_default().into_iter().flat_map(|r| r.args).collect();
@@ -731,16 +740,17 @@ fn delimiter_option_slice(ctx: &mut Ctx) {
         let refused = code != Ok(0) && got.is_empty();
         // `\0` alone: GNU reads it as NUL, the repository's own unit test pins it as an error and the
         // statement only speaks of "-d C", so both outcomes are accepted (never a different byte).
-        let may_refuse = delim.len() > 1 || operand == "\\0";
+        let may_refuse = delim.len() > 1 || operand.ends_with("\\0");
         let ok = refused && may_refuse || code == Ok(0) && nonempty(&got) == nonempty(&want);
         if !ok {
             ctx.rep.violation(
                 if delim.len() > 1 { "C05 -d with an operand longer than one byte is neither refused nor honoured as a whole" } else { "C05 -d OPERAND does not split at exactly the byte the operand names" },
-                format!("xargs -d {operand:?} on {:?}: status {:?} stderr {:?}\n argv {:?}\n expected {:?}{}", show(&input), code, String::from_utf8_lossy(&err), got.iter().map(|b| show(b)).collect::<Vec<_>>(), want.iter().map(|b| show(b)).collect::<Vec<_>>(), if may_refuse { " (or the operand refused and nothing run)" } else { "" }),
+                format!("xargs {operand} on {:?}: status {:?} stderr {:?}\n argv {:?}\n expected {:?}{}", show(&input), code, String::from_utf8_lossy(&err), got.iter().map(|b| show(b)).collect::<Vec<_>>(), want.iter().map(|b| show(b)).collect::<Vec<_>>(), if may_refuse { " (or the operand refused and nothing run)" } else { "" }),
                 json!({"prop":"C05","binary":true,"input":input}),
             );
         } else {
             ctx.rep.traces_validated += 1;
+        }
         }
     }
     let _ = std::fs::remove_file(&log);
